@@ -1149,6 +1149,51 @@ def norm_func(repo: Repo, fi: FuncInfo, depth: int = 3, no_inline: Optional[Set[
             break
         changed_any = True
     node.body = _lower_ifexp(node.body)  # conditional expressions brought in by inlined helpers
+
+    # jump threading:  if C: x = E1 else: x = E2 ; if x: S [else: T]   ==>   if C: (if E1: S else: T) else: (if E2: S else: T)
+    # when x is a local used nowhere else (a flag that only carries a branch outcome to the next statement)
+    def _loads(name):
+        return sum(1 for n_ in q.walk_body(node) if isinstance(n_, ast.Name) and n_.id == name and isinstance(n_.ctx, ast.Load))
+
+    def _stores(name):
+        return sum(1 for n_ in q.walk_body(node) if isinstance(n_, ast.Name) and n_.id == name and isinstance(n_.ctx, (ast.Store, ast.Del)))
+
+    def _thread(body: List[ast.stmt]) -> List[ast.stmt]:
+        nonlocal changed_any
+        out: List[ast.stmt] = []
+        i = 0
+        while i < len(body):
+            st = body[i]
+            nxt = body[i + 1] if i + 1 < len(body) else None
+            if (isinstance(st, ast.If) and len(st.body) == 1 and len(st.orelse) == 1 and isinstance(nxt, ast.If)
+                    and all(isinstance(b, ast.Assign) and len(b.targets) == 1 and isinstance(b.targets[0], ast.Name) for b in (st.body[0], st.orelse[0]))
+                    and st.body[0].targets[0].id == st.orelse[0].targets[0].id):
+                x = st.body[0].targets[0].id
+                t = nxt.test
+                neg = isinstance(t, ast.UnaryOp) and isinstance(t.op, ast.Not)
+                tn = t.operand if neg else t
+                if isinstance(tn, ast.Name) and tn.id == x and _loads(x) == 1 and _stores(x) == 2 and not any(isinstance(y, (ast.Await, ast.NamedExpr)) for b in (st.body[0], st.orelse[0]) for y in ast.walk(b.value)):
+                    def branch(val):
+                        test = ast.UnaryOp(op=ast.Not(), operand=val) if neg else val
+                        n2 = ast.If(test=test, body=_copy.deepcopy(nxt.body), orelse=_copy.deepcopy(nxt.orelse))
+                        return ast.copy_location(n2, nxt)
+                    new = ast.copy_location(ast.If(test=st.test, body=[branch(st.body[0].value)], orelse=[branch(st.orelse[0].value)]), st)
+                    ast.fix_missing_locations(new)
+                    changed_any = True
+                    out.append(new)
+                    i += 2
+                    continue
+            for fld in ("body", "orelse", "finalbody"):
+                sub = getattr(st, fld, None)
+                if isinstance(sub, list) and sub and isinstance(sub[0], ast.stmt) and not isinstance(st, FuncNodeT + (ast.ClassDef,)):
+                    setattr(st, fld, _thread(sub))
+            for h in getattr(st, "handlers", []) or []:
+                h.body = _thread(h.body)
+            out.append(st)
+            i += 1
+        return out
+
+    node.body = _thread(node.body)
     # private same-file helpers that are still called but could not be inlined (early returns inside loops, recursion,
     # generators, ...): rules must not turn "statement not found here" into a violation for such a function
     opaque = []
